@@ -3,11 +3,12 @@
    dimension vector of the readers, the value vectors of the writer) are explicit UB verdicts of the
    model.  Proved: loading ANY byte sequence reaches none of them; saving reaches none of them when
    every parameter holds as many values as its dimensions announce, which Parameter::set guarantees.
-   Stated, not yet proved: the same for every API history (C13_api_statement); decided on generated
-   histories by the sanitizer build (ASan + bounds + _GLIBCXX_ASSERTIONS + LeakSanitizer).
+   And every public mutator, from ANY state, returns none of them either (C13_api: the unchecked accesses of the name-
+   building loops and of the column validators are in range under the guards that precede them); the sanitizer build
+   (ASan + bounds + _GLIBCXX_ASSERTIONS + LeakSanitizer) decides the same on generated histories of the real library.
    What the model cannot exhibit at all: heap lifetime, deallocator pairing, leaks, libstdc++ internals. *)
 From Coq Require Import Lia.
-From EZ Require Import Base Bytes Types Api Enc Dec Float32 Run Proofs_Robust Proofs_SaveSafe Properties_C16.
+From EZ Require Import Base Bytes Types Api Enc Dec Float32 Run Proofs_Robust Proofs_SaveSafe Proofs_ApiSafe Properties_C16.
 Local Open Scope N_scope.
 
 Theorem C13_partial_load : forall file t, load_x file = UB t -> benign t.
@@ -28,7 +29,15 @@ Theorem C13_checked_access : forall A (l : list A) i t, at_ l i <> UB t.
 Proof. exact at_no_ub. Qed.
 Print Assumptions C13_checked_access.
 
-Definition C13_api_statement : Prop := forall s o t, step_x s o = RUB t -> benign t.
+Theorem C13_api : forall f_key f_tosize f_div f_is_zero,
+  (forall r t, f_key r = UB t -> benign t) -> (forall r t, f_tosize r = UB t -> benign t) ->
+  forall s o t, step f_key f_tosize f_div f_is_zero s o = RUB t -> benign t.
+Proof. exact step_no_memory_error. Qed.
+Print Assumptions C13_api.
+
+Theorem C13_api_instance : forall s o t, step_x s o = RUB t -> benign t.
+Proof. exact (step_no_memory_error f_key_impl f_tosize_impl f_div_impl f_is_zero_impl f_key_impl_benign f_tosize_impl_benign). Qed.
+Print Assumptions C13_api_instance.
 
 Example C13_nonvacuous : Forall (fun g => Forall covered (g_params g)) (groups init) /\ exists b, save_x init = Ok b.
 Proof.
